@@ -27,10 +27,7 @@ PROPERTIES = {
                        "All arena sizes, all ids: no bound.",
         "assumptions": A_COMMON + [
             "A6 Key's derived Hash/Eq obey vstd's HashMap key model (axiom_key_model)",
-            "A7' the assumed contract of SectionsBuilder::process_blocks (itertools/closure code) and A7-input, the shape of the blocks the "
-            "reader delivers (no Div, no Header outside process_section, no Table in block()) / of the trees handed to insert_from_iter "
-            "(no Table nodes, only container kinds have children, finite); what a list item may start with is NOT assumed any more: it is "
-            "an obligation at the call `self.process_section(0..b.len(), b)` in block(), which fails on the unchanged tree (known finding); "
+            "A7' process_blocks itself is verified; assumed are only the contracts of its three iterator helpers - first_header, first_header_level, and (rule T14) the statement `let positions = content.iter().positions(..).filter(..).filter(..).collect_vec()`, replaced by a stub that returns the strictly increasing indices of headings from the range's first heading up to range.end - and the contract of `ranges`, which is proved in unit `ranges`; A7-input: every Reader delivers blocks without Div and (T9) without Table; what a list item may start with is NOT assumed: it is an obligation at the call `self.process_section(0..b.len(), b)` in block(), which fails on the unchanged tree (known finding); "
             "everything else of the former blanket assumption A7 (slot free at every primitive call) is now a proof obligation of "
             "SectionsBuilder::{new,process_section,section_block,block}, Graph::from_markdown and insert_from_iter/append_from_visitor; "
             "two known findings (list-head overwrite; item head that section_block has no arm for), two defects repaired (aa1f5f1, ea464ca)",
@@ -75,7 +72,7 @@ PROPERTIES = {
                        "this parse produced. Two known findings (list-head overwrite; item head that section_block has no arm for), one "
                        "defect repaired in /repo (ea464ca: a list without item content adopted the following block). "
                        "Parser, event mapping, process_blocks' body and rendering are not covered.",
-        "assumptions": A_COMMON + ["A7' assumed contract of SectionsBuilder::process_blocks (itertools/closure code); A7-input: the reader delivers no Div and hands no Header to block()"],
+        "assumptions": A_COMMON + ["A7' process_blocks itself is verified; assumed are only the contracts of its three iterator helpers - first_header, first_header_level, and (rule T14) the statement `let positions = content.iter().positions(..).filter(..).filter(..).collect_vec()`, replaced by a stub that returns the strictly increasing indices of headings from the range's first heading up to range.end - and the contract of `ranges`, which is proved in unit `ranges`; A7-input: every Reader delivers blocks without Div and (T9) without Table"],
     },
     "C07": {
         "units": ["ranges", "arena_forest"], "kani": ["ranges"], "kani_cex": [],
@@ -85,9 +82,9 @@ PROPERTIES = {
                        "findings; a heading after an empty list became a list item - repaired in /repo ea464ca); (iii) Projector::project / project_node render, for trees of any size, an outline that is well-nested "
                        "from level 1 (each heading at most one level deeper than the one before it, heading level = section nesting "
                        "depth + 1) and restarts at level 1 inside block quotes and list items. Not covered: which split positions are "
-                       "chosen (process_blocks), project_list_item (assumed contract), the text renderers and list padding.",
+                       "chosen (the positions chain inside process_blocks: assumed stub, T14), project_list_item (assumed contract), the text renderers and list padding.",
         "assumptions": A_COMMON + [
-            "A7 process_blocks passes strictly increasing positions <= end (unverified caller: itertools); its assumed contract A7'",
+            "A7' process_blocks itself is verified; assumed are only the contracts of its three iterator helpers - first_header, first_header_level, and (rule T14) the statement `let positions = content.iter().positions(..).filter(..).filter(..).collect_vec()`, replaced by a stub that returns the strictly increasing indices of headings from the range's first heading up to range.end - and the contract of `ranges`, which is proved in unit `ranges`; A7-input: every Reader delivers blocks without Div and (T9) without Table",
             "assumed contract of Projector::project_list_item (Option/iterator closure code): called on a projector reset with with(0), "
             "every item it returns restarts the outline at level 1",
             "T11 NodeIter interface with ghost size/height; trees without Table nodes (T9) and fewer than 255 nesting levels",
